@@ -41,7 +41,18 @@ fn next_down(x: f64) -> f64 {
 fn check_curve(c: &Curve, mode: GameMode, pts: &[PathControlPoint], l: Option<f64>, extra: &[f64]) -> Result<bool, String> {
     let (path, lengths) = (c.path(), c.lengths());
     if path.iter().any(|p| !p.x.is_finite() || !p.y.is_finite()) || lengths.iter().any(|x| !x.is_finite()) {
-        return Ok(false); // non-finite curves are C16's business (known finding K7)
+        // only the shape of C16's known finding is skipped: osu! mode, the natural path starts with two
+        // equal vertices and the Catmull surplus in its second cumulative length is >= L
+        let nat = Curve::new(mode, pts, None, &mut CurveBuffers::default());
+        let k7 = mode == GameMode::Osu
+            && nat.path().len() >= 2
+            && nat.path()[0] == nat.path()[1]
+            && l.map_or(false, |l| nat.lengths()[1] >= l)
+            && path.len() == 2;
+        if k7 {
+            return Ok(false);
+        }
+        return Err(format!("the curve has a non-finite point or length: path tail {:?}, lengths tail {:?}", &path[path.len().saturating_sub(2)..], &lengths[lengths.len().saturating_sub(2)..]));
     }
     let dist = c.dist();
     if dist != lengths.last().copied().unwrap_or(0.0) {
@@ -166,7 +177,7 @@ fn check_curve(c: &Curve, mode: GameMode, pts: &[PathControlPoint], l: Option<f6
 
 fn gen_case(t: &mut Tape) -> (GameMode, Vec<PathControlPoint>, Option<f64>, Vec<f64>) {
     let mode = gen_mode(t);
-    let (pts, _) = gen_points(t, 10, true);
+    let (pts, _) = gen_points_ex(t, 10, true, true);
     let nd = Curve::new(mode, &pts, None, &mut CurveBuffers::default()).dist();
     let l = match t.weighted(&[3, 2, 2, 1, 1]) {
         0 => None,
